@@ -100,7 +100,7 @@ pub fn instantiate(
     let pending_batch = Batch::new(
         1,
         Uint128::zero(),
-        env.block.time.seconds() + config.batch_period,
+        env.block.time.seconds().saturating_add(config.batch_period),
     );
 
     // Set pending batch and batches
